@@ -326,6 +326,61 @@ type caseID struct {
 	src    []byte
 }
 
+// Violations are aggregated per class (failure kind, input family, entry point); each class is reported once with its
+// minimal failing input (shortest source, then smallest label) and the number of failing inputs.
+type classRec struct {
+	n      int64
+	label  string
+	src    string
+	detail map[string]any
+}
+
+var (
+	classMu sync.Mutex
+	classes = map[string]*classRec{}
+)
+
+func report(c *caseID, what string, mk func() map[string]any) {
+	eps := "file"
+	if c.ep == epExpr {
+		eps = "expr"
+	}
+	fam := c.family
+	if strings.HasPrefix(fam, "enum-") {
+		fam = "enum"
+	}
+	class := what + ":" + fam + ":" + eps
+	classMu.Lock()
+	defer classMu.Unlock()
+	cr := classes[class]
+	if cr == nil {
+		cr = &classRec{}
+		classes[class] = cr
+	}
+	cr.n++
+	if cr.n == 1 || len(c.src) < len(cr.src) || (len(c.src) == len(cr.src) && c.label < cr.label) {
+		detail := mk()
+		detail["key"] = c.key(what)
+		cr.label, cr.src, cr.detail = c.label, string(c.src), detail
+	}
+}
+
+func flushClasses() {
+	var keys []string
+	for k := range classes {
+		keys = append(keys, k)
+	}
+	sort.Strings(keys)
+	for _, k := range keys {
+		cr := classes[k]
+		d := cr.detail
+		d["class"] = k
+		d["failing_inputs_in_class"] = cr.n
+		r.Violation(k, d)
+		fmt.Printf("  class %s: %d failing inputs; minimal: %s\n", k, cr.n, cr.label)
+	}
+}
+
 func (c *caseID) key(what string) string {
 	eps := "file"
 	if c.ep == epExpr {
@@ -361,16 +416,16 @@ func check(c *caseID, t *tally) {
 		if p == nil {
 			p = f1.pan
 		}
-		r.Violation(c.key("panic"), detail(nil, fmt.Sprintf("fork panicked: %v (ref125 panic=%v ref123 panic=%v)", p, a.pan, b.pan)))
+		report(c, "panic", func() map[string]any { return detail(nil, fmt.Sprintf("fork panicked: %v (ref125 panic=%v ref123 panic=%v)", p, a.pan, b.pan)) })
 		return
 	}
 	// the callback is an observer only
 	if !sameResult(&f0, &f1) {
-		r.Violation(c.key("callback-changes-result"), detail(&f1, "ParseFile/ParseExprFrom and the *2 variant with a callback differ"))
+		report(c, "callback-changes-result", func() map[string]any { return detail(&f1, "ParseFile/ParseExprFrom and the *2 variant with a callback differ") })
 		return
 	}
 	if msg := checkCallback(c.src, c.mode, &f1); msg != "" {
-		r.Violation(c.key("callback-stream"), detail(nil, msg))
+		report(c, "callback-stream", func() map[string]any { return detail(nil, msg) })
 		return
 	}
 	if f0.err == nil {
@@ -381,15 +436,17 @@ func check(c *caseID, t *tally) {
 	if sameResult(&a, &b) {
 		t.agree++
 		if !sameResult(&f0, &a) {
-			r.Violation(c.key("differs"), detail(&a, "go1.23.5 and go1.25.9 go/parser agree with each other, the fork differs"))
+			report(c, "differs", func() map[string]any { return detail(&a, "go1.23.5 and go1.25.9 go/parser agree with each other, the fork differs") })
 		}
 		return
 	}
 	// Version drift between the two stdlib parsers: the whole result is not judged.  One thing still is: the fork's
 	// base lies between the two releases, so every error it reports must be reported (same position, same message) by
 	// at least one of them, and every error both of them report must be reported by the fork.
-	if msg := sandwich(f0.err, a.err, b.err); msg != "" {
-		r.Violation(c.key("error-outside-both-refs"), detail(&a, "go1.23.5 and go1.25.9 disagree on this input, but "+msg))
+	// (Only with AllErrors: otherwise same-line error suppression and the 10-error bailout make the reported subset depend
+	// on which drifted error happened to come first.)
+	if msg := ""; c.mode&uint(goparser.AllErrors) != 0 && func() bool { msg = sandwich(f0.err, a.err, b.err); return msg != "" }() {
+		report(c, "error-outside-both-refs", func() map[string]any { return detail(&a, "go1.23.5 and go1.25.9 disagree on this input, but "+msg) })
 		return
 	}
 	switch {
@@ -763,6 +820,7 @@ func replay(path string) {
 	c := caseID{family: "replay", ep: rec.Detail.Entry, mode: rec.Detail.Mode, label: rec.Detail.Label, src: []byte(rec.Detail.Src)}
 	check(&c, &t)
 	t.flush()
+	flushClasses()
 	r.Finish("replay of one input", false, map[string]any{"states": 1, "transitions": 1, "traces_validated_against_impl": 1})
 }
 
@@ -922,6 +980,7 @@ func main() {
 	enumEvals -= r.Evals()
 	runPlans(late)
 	enumEvals += r.Evals()
+	flushClasses()
 	r.Sample(map[string]any{"frame": "file", "src": "package p; func ( x ) x [ x any ] ( ) { }", "modes": fileModes})
 	r.Sample(map[string]any{"corpus_files_selected": len(sel), "corpus_files_total": len(corpus), "first": sel[0].rel})
 	for i, s := range enumInfo {
